@@ -169,6 +169,21 @@ def run(tier, seed, replay=None):
         err = float((x.full().to(torch.float64) - ref).norm() / ref.norm())
         if err > 100 * eps + 1e-9: V.fail("dmrg_cross: accuracy [function values %s]" % kd, dict(desc, rel_err=err, ranks=[int(r) for r in x.R]))
         dist["function values " + kd] = dist.get("function values " + kd, 0) + 1
+    # ---- maxvol is an oracle of the model (any pivots); what the code needs from it is a NONSINGULAR start: on matrices with zero rows (indicator /
+    # sparse data) of full column rank the returned rows must be independent - and the call must return
+    rng_m = random.Random(seed + 37)
+    for j in range(30 if tier == "quick" else 300):
+        gg = np.random.default_rng(rng_m.randrange(1 << 30)); n_, r_ = rng_m.choice([6, 8, 12]), rng_m.choice([2, 3, 4])
+        Mx = torch.tensor(gg.standard_normal((n_, r_)) * (gg.random((n_, 1)) < 0.45), dtype=torch.float64)
+        if int(torch.linalg.matrix_rank(Mx)) < r_: continue
+        try:
+            idx_ = [int(v) for v in ip._maxvol(Mx)]
+            sub = Mx[idx_, :]
+            if len(set(idx_)) != r_ or abs(float(torch.linalg.det(sub))) <= 1e-12 * float(Mx.abs().max()) ** r_:
+                V.fail("_maxvol returns dependent rows of a matrix of full column rank", {"M": Mx.tolist(), "rows": idx_})
+        except Exception as ex:
+            V.fail("_maxvol raises %s on a matrix of full column rank with zero rows" % type(ex).__name__, {"M": Mx.tolist(), "exc": str(ex)[:200]})
+        dist["maxvol on sparse matrices"] = dist.get("maxvol on sparse matrices", 0) + 1
     # ---- the documented sweep budget: nswp = 1 and 2 (one sweep over exact-rank / separable data already recovers it)
     rng_s = random.Random(seed + 31)
     for j in range(6 if tier == "quick" else 60):
